@@ -38,11 +38,13 @@ func withPreload(c *Ctx, r *Rng, files map[string][]byte, twinBias bool) {
 			continue
 		}
 		src, _ := pickProgram(c, r, false)
-		if r.Chance(1, 6) {
-			// a library of some size (several hundred to three thousand lines): preloading it
-			// takes a noticeable share of the watchdog's window
+		if n == "lib.rb" && r.Chance(1, 6) {
+			// a library of some size (8 to 26 KB, several hundred to two thousand lines):
+			// preloading it takes a noticeable share of the watchdog's window, but the whole
+			// analysis stays within a third of it on the tree as given (inputs are bounded;
+			// a run that needs the full window because its input is huge is not a hang)
 			var b []byte
-			for k := r.Range(40, 220); k > 0; k-- {
+			for want := r.Range(8, 26) << 10; len(b) < want; {
 				b = append(b, c.Corpus[r.Intn(len(c.Corpus))].Src...)
 				b = append(b, '\n')
 			}
